@@ -19,7 +19,7 @@ RULE = ("A case = scenario (2..4 actors x 1..4 IF.LDM.3 / IF.LDM.4 calls from ad
         "the in-memory back-end with the reactive service / maintenance classes, two objects pre-loaded) + schedule (which runnable actor "
         "continues at each preemption point: opcode events in dictionary_database.py, ldm_service*.py, ldm_maintenance*.py, if_ldm_3/4.py "
         "and lock operations). Quick: hypothesis schedules (sparse priority changes and dense) over drawn scenarios plus every "
-        "single-preemption schedule of 9 fixed scenarios; thorough: 18 fixed scenarios and many more random ones. Oracle: the per-actor "
+        "single-preemption schedule of 10 fixed scenarios; thorough: 20 fixed scenarios and many more random ones. Oracle: the per-actor "
         "responses and the final store / registries must equal those of some sequential order of the same calls respecting real-time "
         "precedence (exhaustive memoised search); identifiers unique; a query or notification returns only objects present at some instant "
         "of the call and all objects present throughout; no actor raises; no deadlock. Non-trivial = schedule with a context switch inside "
@@ -32,14 +32,14 @@ ASSUMPTIONS = [
 
 TYPES = {"cam": 2, "vam": 16}
 OPS = ["add_cam", "add_vam", "update0", "update1", "update_own", "delete0", "delete1", "delete_own", "request_all", "request_cam", "reg_p16", "dereg_p16", "reg_c16", "dereg_c16",
-       "reg_p3", "reg_c3", "subscribe", "unsub0", "unsub_sub", "gc", "attend"]
+       "reg_p3", "reg_c3", "subscribe", "subscribe16", "unsub0", "unsub_sub", "gc", "attend"]
 
 
 def mk_obj(kind, tag):
     return {"header": {"stationId": tag}, kind: {"v": tag}}
 
 
-def build_world(s):
+def build_world(s, pre16=False):
     from flexstack.facilities.local_dynamic_map import dictionary_database as dd, ldm_service as ls, ldm_service_reactive as lsr, ldm_maintenance as lm, ldm_maintenance_reactive as lmr
     from flexstack.facilities.local_dynamic_map.factory import LDMFactory
     from flexstack.facilities.local_dynamic_map.ldm_classes import (AccessPermission, AddDataProviderReq, Circle, GeometricArea, Location, RegisterDataConsumerReq, RegisterDataProviderReq,
@@ -69,24 +69,27 @@ def build_world(s):
     notifications = []
     req0 = SubscribeDataobjectsReq(application_id=2, data_object_type=(2,), notify_time=TimestampIts(0), multiplicity=1)
     req_sub = SubscribeDataobjectsReq(application_id=2, data_object_type=(2, 16), notify_time=TimestampIts(0), multiplicity=0)
+    req_sub16 = SubscribeDataobjectsReq(application_id=16, data_object_type=(16,), notify_time=TimestampIts(0), multiplicity=0)
+    if pre16:
+        ldm.if_ldm_4.register_data_consumer(RegisterDataConsumerReq(application_id=16, access_permisions=(AccessPermission.VAM,), area_of_interest=GeometricArea(Circle(1000), None, None)))
     r0 = ldm.if_ldm_4.subscribe_data_consumer(req0, lambda resp: notifications.append((s.point, tuple(sorted(core.jdump(x.get("dataObject")) for x in resp.data_objects)))))
-    return {"clock": clock, "ldm": ldm, "add_req": add_req, "pre": pre, "ts": ts, "notifications": notifications, "req_sub": req_sub,
-            "sub_ids": {"S0": r0.subscription_id, "SUB": hash(req_sub)}}
+    return {"clock": clock, "ldm": ldm, "add_req": add_req, "pre": pre, "ts": ts, "notifications": notifications, "req_sub": req_sub, "req_sub16": req_sub16,
+            "sub_ids": {"S0": r0.subscription_id, "SUB": hash(req_sub), "SUB16": hash(req_sub16)}}
 
 
 class Model:
     """Sequential reference LDM (content only)."""
 
-    def __init__(self, pre):
+    def __init__(self, pre, pre16=False):
         self.objs = {i: o for i, o in pre}
         self.next_id = max(self.objs) + 1 if self.objs else 0
         self.providers = {2}
-        self.consumers = {2}
-        self.subs = {"S0": 1, "SUB": 0}      # live subscriptions per request (identical requests share the identifier)
+        self.consumers = {2, 16} if pre16 else {2}
+        self.subs = {"S0": 1, "SUB": 0, "SUB16": 0}      # live subscriptions per request (identical requests share the identifier)
 
     def key(self):
         return (tuple(sorted((i, core.jdump(o)) for i, o in self.objs.items())), self.next_id, tuple(sorted(self.providers)), tuple(sorted(self.consumers)),
-                (self.subs["S0"], self.subs["SUB"]))
+                (self.subs["S0"], self.subs["SUB"], self.subs["SUB16"]))
 
     def copy(self):
         m = Model([])
@@ -136,11 +139,13 @@ class Model:
         if k == "dereg_c":
             ok = call[1] in self.consumers
             self.consumers.discard(call[1])
+            if call[1] == 16:
+                self.subs["SUB16"] = 0          # the consumer's subscriptions end with its registration
             return 0 if ok else 1
         if k == "subscribe":
             if call[1] not in self.consumers:
                 return 1
-            self.subs["SUB"] += 1
+            self.subs["SUB" if call[1] == 2 else "SUB16"] += 1
             return 0
         if k == "unsub":
             if 2 not in self.consumers or self.subs[call[1]] == 0:
@@ -150,7 +155,7 @@ class Model:
         return None      # gc, attend
 
 
-def linearizable(history, pre, final_key):
+def linearizable(history, pre, final_key, pre16=False):
     """history: list of dict(actor, idx, start, end, call, result).  Memoised DFS."""
     n_act = max(h["actor"] for h in history) + 1 if history else 0
     per = [[h for h in history if h["actor"] == a] for a in range(n_act)]
@@ -179,7 +184,7 @@ def linearizable(history, pre, final_key):
                 if dfs(np, m2):
                     return True
         return False
-    return dfs(tuple(0 for _ in range(n_act)), Model(pre))
+    return dfs(tuple(0 for _ in range(n_act)), Model(pre, pre16))
 
 
 _WARM = [False]
@@ -201,7 +206,7 @@ def _run_schedule(case):
                                                                     SubscribeDataobjectsReq, TimestampIts, TimeValidity, UnsubscribeDataConsumerReq, UpdateDataProviderReq, Location)
     files = {m.__file__ for m in (dd, ls, lsr, lm, lmr, i3m, i4m)}
     s = sch.Scheduler(files, case["schedule"], max_points=60000)
-    w = build_world(s)
+    w = build_world(s, bool(case.get("pre16")))
     ldm, clock = w["ldm"], w["clock"]
     i3, i4 = ldm.if_ldm_3, ldm.if_ldm_4
     vs = []
@@ -268,6 +273,10 @@ def _run_schedule(case):
                         r = i4.subscribe_data_consumer(w["req_sub"],
                                                        lambda resp: notifications.append((s.point, tuple(sorted(core.jdump(x.get("dataObject")) for x in resp.data_objects)))))
                         result = 0 if int(r.result) == 0 else 1
+                    elif op == "subscribe16":
+                        call = ("subscribe", 16)
+                        r = i4.subscribe_data_consumer(w["req_sub16"], lambda resp: None)
+                        result = 0 if int(r.result) == 0 else 1
                     elif op in ("unsub0", "unsub_sub"):
                         tok = "S0" if op == "unsub0" else "SUB"
                         call = ("unsub", tok)
@@ -316,8 +325,8 @@ def _run_schedule(case):
             if not corrupt:
                 final_key = (tuple(sorted((i, core.jdump(o)) for i, o in final_objs.items())), max([p[0] for p in w["pre"]] + ids) + 1,
                              tuple(sorted(ldm.ldm_service.get_data_provider_its_aid())), tuple(sorted(ldm.ldm_service.get_data_consumer_its_aid())),
-                             tuple(sum(1 for x in ldm.ldm_service.subscriptions if hash(x.subscription_request) == w["sub_ids"][t]) for t in ("S0", "SUB")))
-                if not linearizable(history, w["pre"], final_key):
+                             tuple(sum(1 for x in ldm.ldm_service.subscriptions if hash(x.subscription_request) == w["sub_ids"][t]) for t in ("S0", "SUB", "SUB16")))
+                if not linearizable(history, w["pre"], final_key, bool(case.get("pre16"))):
                     kinds = sorted({h["call"][0] for h in history if h["call"][0] not in ("gc", "attend", "request")})
                     vs.append(violation(ID, "C16/not-linearizable:%s" % "+".join(kinds), "no sequential order of the calls explains the responses and the final state; history: %s; final objects %r providers %r consumers %r" % (
                         [(h["actor"], h["op"], h["start"], h["end"], h["result"] if not isinstance(h["result"], tuple) else len(h["result"])) for h in history], sorted(final_objs), sorted(ldm.ldm_service.get_data_provider_its_aid()),
@@ -333,7 +342,7 @@ def _run_schedule(case):
 
 def scenario_s():
     ops = st.sampled_from(OPS + ["add_cam", "delete0", "update0", "delete_own", "update_own", "request_all"])
-    return st.fixed_dictionaries({"actors": st.lists(st.lists(ops, min_size=1, max_size=4), min_size=2, max_size=4)})
+    return st.fixed_dictionaries({"pre16": st.booleans(), "actors": st.lists(st.lists(ops, min_size=1, max_size=4), min_size=2, max_size=4)})
 
 
 def schedule_s():
@@ -378,6 +387,8 @@ FIXED = [
     {"actors": [["unsub0"], ["unsub0"]]},
     {"actors": [["subscribe", "unsub_sub"], ["unsub_sub", "subscribe"], ["attend"]]},
     {"actors": [["unsub0"], ["attend"], ["add_cam"]]},
+    {"pre16": True, "actors": [["dereg_c16"], ["reg_c16", "subscribe16"]]},
+    {"pre16": True, "actors": [["subscribe16", "dereg_c16"], ["reg_c16", "subscribe16"], ["attend"]]},
 ]
 
 
@@ -412,7 +423,7 @@ def jobs(tier, seed):
     if tier == "quick":
         for s in range(10):
             js.append({"fn": "vf.props.c16:job_random", "args": {"n": 250, "seed": seed * 1000 + s}})
-        for sc in (0, 1, 2, 3, 12, 13, 14, 15, 17):
+        for sc in (0, 1, 2, 3, 12, 13, 14, 15, 17, 18):
             js.append({"fn": "vf.props.c16:job_systematic", "args": {"scenario_i": sc, "shard": 0, "nshards": 1}})
     else:
         for s in range(16):
